@@ -577,7 +577,7 @@ func (s *scanningState) scan(line []byte) (bool, error) {
 	case gotRoutineHeader:
 		if reUnavail.Match(trimmed) {
 			// Generate a fake stack entry.
-			cur.Stack.Calls = []Call{{RemoteSrcPath: "<unavailable>"}}
+			cur.Stack.Calls = []Call{{RemoteSrcPath: "<unavailable>", SrcName: "<unavailable>"}}
 			// Next line is expected to be an empty line.
 			s.state = gotUnavail
 			return true, nil
